@@ -563,9 +563,22 @@ impl Process {
         {
             self.pending_signals.insert(signal).ok();
             SignalResult::default()
+        } else if signal != signal::SIGKILL
+            && signal != signal::SIGSTOP
+            && signal != signal::SIGCONT
+            && self.state.is_stopped()
+        {
+            // A stopped process does not act on a signal before it is resumed.
+            self.pending_signals.insert(signal).ok();
+            SignalResult::default()
         } else {
             self.deliver_signal(signal)
         };
+
+        if process_state_changed {
+            // Signals that arrived while the process was stopped
+            result |= self.deliver_pending_signals();
+        }
 
         result.process_state_changed |= process_state_changed;
         result
